@@ -1756,7 +1756,11 @@ class PCE500Emulator:
         self._irq_pending = bool(interrupts.get("pending", False))
         self._in_interrupt = bool(interrupts.get("in_interrupt", False))
         source_name = interrupts.get("source")
-        self._irq_source = IRQSource[source_name] if source_name else None
+        # The Rust core also records "IR" (software interrupt) here; that is not one of
+        # the four hardware sources, so it restores as "no hardware source".
+        self._irq_source = (
+            IRQSource.__members__.get(str(source_name)) if source_name else None
+        )
         self._interrupt_stack = list(interrupts.get("stack", []))
         self._next_interrupt_id = int(interrupts.get("next_id", 1))
         irq_counts = interrupts.get("irq_counts")
